@@ -167,9 +167,61 @@ func isFlagTest(b *ssa.BasicBlock) bool {
 	return isPhi && phi.Block() == b
 }
 
+// nilPhiVia: b ends in a nil test of one of its own phis (a result variable set on the ways in and tested right after
+// the merge). Entered from pred, is the phi known to be nil / non-nil?
+func nilPhiVia(pred, b *ssa.BasicBlock) (known, nonNil, nonNilOnTrue bool) {
+	iff, ok := lastInstr(b).(*ssa.If)
+	if !ok {
+		return
+	}
+	x, onTrue, ok := nilTest(iff.Cond)
+	if !ok {
+		return
+	}
+	phi, isPhi := x.(*ssa.Phi)
+	if !isPhi || phi.Block() != b {
+		return
+	}
+	for i, p := range b.Preds {
+		if p != pred {
+			continue
+		}
+		v := phi.Edges[i]
+		switch {
+		case isNilConst(v):
+			return true, false, onTrue
+		case nonNilAt(v, pred):
+			return true, true, onTrue
+		}
+	}
+	return
+}
+
+// isPathTest: the outcome of b's test can depend on the edge b was entered by.
+func isPathTest(b *ssa.BasicBlock) bool {
+	if isFlagTest(b) {
+		return true
+	}
+	iff, ok := lastInstr(b).(*ssa.If)
+	if !ok {
+		return false
+	}
+	x, _, ok := nilTest(iff.Cond)
+	if !ok {
+		return false
+	}
+	phi, isPhi := x.(*ssa.Phi)
+	return isPhi && phi.Block() == b
+}
+
 // feasibleVia: can edge k of b be taken when b was entered from pred? Only a flag test whose flag is a constant on that
 // edge is ever decided.
 func feasibleVia(pred, b *ssa.BasicBlock, k int) bool {
+	if pred != nil {
+		if known, nonNil, nonNilOnTrue := nilPhiVia(pred, b); known {
+			return (k == 0) == (nonNil == nonNilOnTrue)
+		}
+	}
 	if pred == nil || !isFlagTest(b) {
 		return true
 	}
@@ -373,7 +425,7 @@ func reachesAvoidingP(from, target *ssa.BasicBlock, stop func(*ssa.BasicBlock) b
 			return true
 		}
 		n := node{b, nil}
-		if isFlagTest(b) {
+		if isPathTest(b) {
 			n.pred = pred
 		}
 		if seen[n] {
